@@ -287,6 +287,7 @@ fn load_impl(
                 .map_err(|parse_err| A2lError::InvalidBuiltinA2mlSpec { parse_err })?
                 .0,
         );
+        parser.a2mlspec_builtin = parser.a2mlspec.len();
     }
 
     // build the a2l data structures from the tokens
@@ -329,6 +330,7 @@ pub fn load_fragment(a2ldata: &str, a2ml_spec: Option<String>) -> Result<Module,
                 .map_err(|parse_err| A2lError::InvalidBuiltinA2mlSpec { parse_err })?
                 .0,
         );
+        parser.a2mlspec_builtin = parser.a2mlspec.len();
     }
     // build the a2l data structures from the tokens
     Module::parse(&mut parser, &context, 0)
